@@ -92,7 +92,7 @@ package chain
 // A transaction's nonce must be exactly one more than the sender's nonce in state.
 //@ func (*Chain).validateNonce
 //@   prop C03
-//@   requires c != nil
+//@   requires c != nil && $nonce[fromClient] < MaxInt64
 //@   ensures[exact-next] result == nil ==> txnNonce == $nonce[fromClient] + 1
 //@   ensures[reject-others] txnNonce != $nonce[fromClient] + 1 ==> result != nil
 //@   ensures balUnchanged() && nonceUnchanged()
